@@ -1,0 +1,27 @@
+//go:build verif
+
+package hdkeychain
+
+import "unsafe"
+
+// Exports for the verification harness (build tag "verif").
+
+// VerifFieldRanges returns, for the byte-slice fields key, pubKey, chainCode,
+// parentFP and version, the address of the first byte (0 for an empty slice)
+// and the length. Used to compare the sharing structure with the model.
+func VerifFieldRanges(k *ExtendedKey) [5][2]uintptr {
+	var r [5][2]uintptr
+	for i, b := range [][]byte{k.key, k.pubKey, k.chainCode, k.parentFP, k.version} {
+		if len(b) > 0 {
+			r[i][0] = uintptr(unsafe.Pointer(&b[0]))
+		}
+		r[i][1] = uintptr(len(b))
+	}
+	return r
+}
+
+// VerifFields returns copies of the raw fields.
+func VerifFields(k *ExtendedKey) (key, pubKey, chainCode, parentFP, version []byte, depth uint8, childNum uint32, isPrivate bool) {
+	c := func(b []byte) []byte { return append([]byte{}, b...) }
+	return c(k.key), c(k.pubKey), c(k.chainCode), c(k.parentFP), c(k.version), k.depth, k.childNum, k.isPrivate
+}
